@@ -229,6 +229,10 @@ func (r *NgReader) readOption() error {
 			}
 		}
 		r.currentBlock.length -= uint32(length)
+	} else {
+		// a zero length option (e.g. an empty comment) has an empty value, not
+		// the value of whatever option was read before it
+		r.currentOption.value = r.currentOption.value[:0]
 	}
 	return nil
 }
